@@ -151,6 +151,11 @@ func runCheck(id, tier string, seed int64, only string) int {
 			}
 			text := string(data)
 			for _, r := range g.Replace {
+				// "*pattern": every occurrence, none required
+				if strings.HasPrefix(r[0], "*") {
+					text = strings.ReplaceAll(text, r[0][1:], r[1])
+					continue
+				}
 				if !strings.Contains(text, r[0]) {
 					incomplete = append(incomplete, "overlay_gen: pattern not found in "+g.Src+": "+r[0])
 				}
